@@ -42,6 +42,9 @@ def store_targets(func):
                                                "__builtin_memcpy", "__builtin_memset"):
             if len(n.c) > 1:
                 yield n, n.c[1]
+        elif n.k == "ReturnStmt" and n.c and n.c[0] is not None and "*" in n.c[0].ty:
+            # a pointer into a table handed to the caller (append helper)
+            yield n, n.c[0]
 
 
 def indexed_accesses(lhs, sd):
@@ -77,16 +80,45 @@ def indexed_accesses(lhs, sd):
             return
 
 
-def rcap(db, func, rep, rule="R-CAP", counters_only=True, caller_summaries=True, extra_counters=(), same_object=True):
+def _eq_counter_fact(func, facts, st, idxname, counters):
+    """search-or-append idiom:  if (i == P) { P++; A[i] = ... }  — returns
+    (P, increment-node) when the store is dominated by the true edge of
+    `i == P` and by an increment of P that the test dominates."""
+    for n in func.walk():
+        if n.k != "BinaryOperator" or n.op != "==":
+            continue
+        l, r = access_path(n.c[0]), access_path(n.c[1])
+        P = r if l == idxname else l if r == idxname else None
+        if P is None or P not in counters:
+            continue
+        # the test's TRUE edge must dominate the store
+        pos = func.pos(n)
+        if pos is None:
+            continue
+        tb = None
+        for b in func.blocks.values():
+            if b.cond is n and len(b.succs) == 2 and b.succs[0] is not None:
+                tb = b.succs[0]
+        spos = func.pos(st)
+        if tb is None or spos is None or tb not in func.dom().get(spos[0], ()):
+            continue
+        for inc in counters[P]:
+            ipos = func.pos(inc)
+            if ipos is not None and tb in func.dom().get(ipos[0], ()) and func.dominates(inc, st):
+                return P, inc
+    return None, None
+
+
+def rcap(db, func, rep, rule="R-CAP", counters_only=True, caller_summaries=True, extra_counters=(),
+         same_object=True, armed=None):
     """Capacity rule on append-style stores of `func`.
-    Returns number of instances examined."""
+    armed(apath, func) -> True (verdict) / False (info only) / None (skip)."""
     sd = single_defs(func)
     resolve = lambda name: sd.get(name)
     counters = incremented_paths(func)
     for p in extra_counters:
         counters.setdefault(p, [])
     facts = Facts(func)
-    rep.saw(func)
     seen = set()
     count = 0
     for st, lhs in store_targets(func):
@@ -95,41 +127,64 @@ def rcap(db, func, rep, rule="R-CAP", counters_only=True, caller_summaries=True,
             if lin is None or lin[0] is None:
                 continue
             cpath, off = lin
-            if counters_only and cpath not in counters:
-                continue
-            # the table's own counter: a field (or global) of the same object as the array
-            if same_object and not _same_object(apath, cpath, func):
-                continue
+            at = st          # where the bound must hold
+            ix = strip_casts(idx)
+            if ix is not None and ix.k == "DeclRefExpr" and ix.name in sd and func.pos(sd[ix.name]) is not None:
+                at = sd[ix.name]   # index value is fixed where the local is defined
+            comps = cpath.split("+")
+            direct = any(c in counters for c in comps) and \
+                (not same_object or all(_same_object(apath, c, func) for c in comps))
+            if counters_only and not direct:
+                # search-or-append through a local index
+                if len(comps) == 1 and "->" not in cpath and "." not in cpath:
+                    P, inc = _eq_counter_fact(func, facts, st, cpath, counters)
+                    if P is None or (same_object and not _same_object(apath, P, func)):
+                        continue
+                    cpath, comps, at = P, [P], inc
+                else:
+                    continue
             if not facts.reachable(st):
                 continue
             key = (apath, cpath)
-            conds = facts.conds(st)
+            if key in seen:
+                continue
+            isarmed = True if armed is None else armed(apath, func)
+            if isarmed is None:
+                continue
+            conds = facts.conds(at)
             ub = upper_bound(conds, cpath, resolve)
+            if at is not st and (ub is None or ub + off > alen - 1):
+                conds2 = facts.conds(st)
+                ub2 = upper_bound(conds2, cpath, resolve)
+                if ub2 is not None and (ub is None or ub2 < ub):
+                    ub, conds = ub2, conds2
             asserted = False
             if ub is not None:
                 for c in conds:
-                    if c[0] != "switch" and "ORC_ASSERT" in c[0].mac and cpath in paths_in(c[0]):
+                    if c[0] != "switch" and "ORC_ASSERT" in c[0].mac and (set(comps) & paths_in(c[0])):
                         asserted = True
             ok = ub is not None and ub + off <= alen - 1
             via = "own check"
-            if not ok and caller_summaries and func.static:
+            if not ok and caller_summaries and func.static and len(comps) == 1:
                 ok2, why = _callers_bound(db, func, cpath, off, alen, st)
                 if ok2:
                     ok, via = True, why
             inst = "%s[%s]" % (apath, cpath)
-            if key in seen:
-                continue
             seen.add(key)
             count += 1
+            rep.saw(func)
             if ok:
                 rep.ok(rule, where(func), inst,
-                       "store %s index=%s+%d bounded by %s (capacity %d)%s" %
+                       "store %s index=%s%+d bounded by %s (capacity %d)%s" %
                        (unparse(lhs)[:80], cpath, off, via if via != "own check" else "ub=%s" % ub, alen,
                         " [abort-guarded by ORC_ASSERT]" if asserted else ""))
-            else:
+            elif isarmed:
                 rep.violation(rule, where(func), inst,
                               "store to %s at index %s%+d with capacity %d is not dominated by a bound check on %s (best upper bound: %s)" %
                               (unparse(lhs)[:80], cpath, off, alen, cpath, ub), line=st.line)
+            else:
+                rep.info("%s: unarmed R-CAP instance %s in %s has no dominating bound (count is fixed by the backend skeleton; see tables/c05_rcap.json)" %
+                         (rule, inst, where(func)))
     return count
 
 
